@@ -3109,6 +3109,10 @@ class Wallet(object):
             if kb['id'] in self._key_objects:
                 self._key_objects[kb['id']]._balance = kb['balance']
         self.session.bulk_update_mappings(DbKey, key_balance_list)
+        # The bulk update bypasses key objects already loaded in this session: let them reload their balance
+        for obj in list(self.session.identity_map.values()):
+            if isinstance(obj, DbKey):
+                self.session.expire(obj, ['balance'])
         self._commit()
         _logger.info("Got balance for %d key(s)" % len(key_balance_list))
         return self._balances
